@@ -13,8 +13,8 @@ use std::cell::RefCell;
 use std::collections::BTreeMap;
 use std::time::{Duration, Instant};
 
-use explorer::task::{disown_select, own_select, End, Exec};
-use explorer::{catch, dfs, json, Chooser, DfsCfg, Report};
+use explorer::task::{disown_select, End, Exec};
+use explorer::{catch, dfs, json, Chooser, Report};
 use futures_channel::mpsc;
 use futures_util::SinkExt;
 use p2panda_core::SeqNum;
@@ -25,7 +25,7 @@ use tokio::sync::broadcast;
 
 use crate::fixtures::{duplex, make_chain, Call, CallKind, Cap, Ext, FaultStore, LogIdT, Mutation, Op, TOPIC};
 use crate::par::{par_for, Acc};
-use crate::replica::{build, describe, product, to_json, Chains, Config, SlotCfg, SlotSide};
+use crate::replica::{build, template, describe, product, to_json, Chains, Config, SlotCfg, SlotSide};
 use crate::session::{run_pair, sym, Outcome, Sym};
 
 /// Monitor for one side's sink.  `None` = the word is in the language.
@@ -149,12 +149,13 @@ fn log_sync_parts(rep: &mut Report, w: &World, configs: &[Config], dev_free: usi
     let acc = par_for(configs, rep.args.threads, wall, |idx, cfg, acc: &mut Acc| {
         // ---- part 1: no concurrent change
         let mut calls = [0usize, 0usize];
+        let tpl = [template(&w.chains, cfg, 0), template(&w.chains, cfg, 1)];
         let st = dfs(
-            &DfsCfg { max_dev: dev_free, ..Default::default() },
+            &crate::session::dfs_cfg(dev_free, wall),
             |ch: &Chooser| {
-                let reps = [build(&w.chains, cfg, 0), build(&w.chains, cfg, 1)];
+                let reps = [tpl[0].instantiate(), tpl[1].instantiate()];
                 let fs = [FaultStore::new(reps[0].store.clone(), None), FaultStore::new(reps[1].store.clone(), None)];
-                let run = run_pair(ch, [fs[0].clone(), fs[1].clone()], [reps[0].logs.clone(), reps[1].logs.clone()], Cap::Unbounded, 5_000);
+                let run = run_pair(ch, [fs[0].clone(), fs[1].clone()], [reps[0].logs.clone(), reps[1].logs.clone()], Cap::Unbounded, 2_000);
                 (run, [fs[0].trace().len(), fs[1].trace().len()])
             },
             |ch, (run, n)| {
@@ -168,7 +169,8 @@ fn log_sync_parts(rep: &mut Report, w: &World, configs: &[Config], dev_free: usi
                 let ctx = || format!("no concurrent store change; A wrote {:?}, B wrote {:?}; configuration: {}; schedule [{}]", words[0], words[1], describe(cfg), ch.describe());
                 let replay = || json!({"part": "no-fault", "config_index": idx, "config": to_json(cfg), "vector": ch.vector()});
                 if let Some(p) = &run.panic {
-                    acc.violation("panic", rank, || format!("{p}; {}", ctx()), replay);
+                    let key = if p.starts_with(crate::session::SPIN) { "livelock/sync-loop-spins/no-concurrent-change" } else { "panic" };
+                    acc.violation(key, rank, || format!("{p}; {}", ctx()), replay);
                     return;
                 }
                 if run.end != End::AllDone || run.outcome.iter().any(|o| *o != Outcome::Ok) {
@@ -192,12 +194,12 @@ fn log_sync_parts(rep: &mut Report, w: &World, configs: &[Config], dev_free: usi
             for k in 0..calls[side] {
                 for (mi, m) in muts.iter().enumerate() {
                     let st = dfs(
-                        &DfsCfg { max_dev: dev_fault, ..Default::default() },
+                        &crate::session::dfs_cfg(dev_fault, wall),
                         |ch: &Chooser| {
-                            let reps = [build(&w.chains, cfg, 0), build(&w.chains, cfg, 1)];
+                            let reps = [tpl[0].instantiate(), tpl[1].instantiate()];
                             let plan = |s: usize| if s == side { Some((k, m.clone())) } else { None };
                             let fs = [FaultStore::new(reps[0].store.clone(), plan(0)), FaultStore::new(reps[1].store.clone(), plan(1))];
-                            let run = run_pair(ch, [fs[0].clone(), fs[1].clone()], [reps[0].logs.clone(), reps[1].logs.clone()], Cap::Unbounded, 5_000);
+                            let run = run_pair(ch, [fs[0].clone(), fs[1].clone()], [reps[0].logs.clone(), reps[1].logs.clone()], Cap::Unbounded, 2_000);
                             (run, fs[side].trace(), fs[side].fired())
                         },
                         |ch, (run, trace, fired)| {
@@ -228,7 +230,8 @@ fn log_sync_parts(rep: &mut Report, w: &World, configs: &[Config], dev_free: usi
                             };
                             let replay = || json!({"part": "fault", "config_index": idx, "config": to_json(cfg), "side": side, "store_call": k, "mutation": m.describe(&authors), "vector": ch.vector()});
                             if let Some(p) = &run.panic {
-                                acc.violation(&format!("panic/{eff}-{win}"), rank, || format!("{p}; {}", ctx()), replay);
+                                let class = if p.starts_with(crate::session::SPIN) { "livelock/sync-loop-spins" } else { "panic" };
+                                acc.violation(&format!("{class}/{eff}-{win}"), rank, || format!("{p}; {}", ctx()), replay);
                                 return;
                             }
                             for i in 0..2 {
@@ -318,7 +321,7 @@ fn run_topic_pair(ch: &Chooser, w: &World, cfg: &Config, plan: Option<(usize, us
     let pb = TopicLogSync::<[u8; 32], FaultStore, LogIdT, Ext>::new(TOPIC, fs[1].clone(), Some(live_b_rx), ev_b.clone());
     let ra: RefCell<Option<Result<(), TopicLogSyncError>>> = RefCell::new(None);
     let rb: RefCell<Option<Result<(), TopicLogSyncError>>> = RefCell::new(None);
-    own_select(ch);
+    crate::session::own_select_guarded(ch);
     let r = catch(|| {
         let mut ex = Exec::new();
         ex.spawn("A", async {
@@ -327,7 +330,7 @@ fn run_topic_pair(ch: &Chooser, w: &World, cfg: &Config, plan: Option<(usize, us
         ex.spawn("B", async {
             *rb.borrow_mut() = Some(pb.run(&mut b_tx, &mut b_rx).await);
         });
-        let end = ex.run(ch, 10_000);
+        let end = ex.run(ch, 2_000);
         (end, ex.steps)
     });
     disown_select();
@@ -380,7 +383,8 @@ fn topic_part(rep: &mut Report, w: &World, configs: &[Config], dev: usize, wall:
             acc.outcome(&("topic", &run.frames, &run.result, label));
             let ctx = format!("{what}; A wrote {:?}, B wrote {:?}; results {:?}; configuration: {}; schedule [{}]", run.frames[0], run.frames[1], run.result, describe(cfg), ch.describe());
             if let Some(p) = &run.panic {
-                acc.violation(&format!("panic/topic-log-sync/{label}"), rank, || format!("{p}; {ctx}"), || replay.clone());
+                let class = if p.starts_with(crate::session::SPIN) { "livelock/sync-loop-spins" } else { "panic" };
+                acc.violation(&format!("{class}/topic-log-sync/{label}"), rank, || format!("{p}; {ctx}"), || replay.clone());
                 return;
             }
             for i in 0..2 {
@@ -401,7 +405,7 @@ fn topic_part(rep: &mut Report, w: &World, configs: &[Config], dev: usize, wall:
         // fault-free
         let mut calls = [0usize, 0usize];
         let st = dfs(
-            &DfsCfg { max_dev: dev, ..Default::default() },
+            &crate::session::dfs_cfg(dev, wall),
             |ch: &Chooser| {
                 let r0 = run_topic_pair(ch, w, cfg, None);
                 // call counts of both sides under the default schedule
@@ -431,7 +435,7 @@ fn topic_part(rep: &mut Report, w: &World, configs: &[Config], dev: usize, wall:
             for k in 0..calls[side] {
                 for (mi, m) in muts.iter().enumerate() {
                     let st = dfs(
-                        &DfsCfg { max_dev: 0, ..Default::default() },
+                        &crate::session::dfs_cfg(0, wall),
                         |ch: &Chooser| run_topic_pair(ch, w, cfg, Some((side, k, m.clone()))),
                         |ch, run| {
                             let Some(fired) = run.fired else { return };
